@@ -12,8 +12,8 @@ for every turn (the hostile one and all later ones), the task of every LLM call
 
 Oracle (independent of the code under test, ~20 lines, `judge_reply`):
   * generate must not raise anything but LLMCallException, and must return within the
-    logical step budget (v1: parser/runtime function entries; the v1 Colang parser has a
-    genuine endless loop that LLM text can reach);
+    logical step budget (v1: parser/runtime function entries; LLM text could reach an
+    endless loop of the v1 Colang parser until the `define` without body repair);
   * no LLM post-processing action (generate_user_intent / next_step / bot_message /
     intent_steps_message, v2 intent / continuation / flow-from-name) may crash on the
     completion (the dispatcher turns that into the "internal error" reply = a broken turn);
@@ -233,6 +233,8 @@ HOSTILE = [
     "$", "$secret_var", "{$secret_var}", "  $secret_var", '  "$secret_var"', "${secret_var}", "{expr}", "{62615500+33}", "{$system.config.colang_version}", "$$", "$1", "$secret_var.attr", "{$undefined}", "{1/0}", "{",
     "héllo wörld ✓", "日本語のテキスト", "😀😀😀", "ｂｏｔ　ａｎｓｗｅｒ", "bot ответ", "İ", "ß" * 50,
     "None", "123", "-1", "1e999", "[1,2", "__import__('os').getcwd()", "'single'", "True;", "7907*7919", '"a" + "b"', "b'bytes'", "{1, 2}", "1 if True else 2", "lambda: 1", '"""', "'unterminated", "(1,)", ";", '"x";;',
+    # a valid step followed by a tail that does not even parse on its own: the shrink-and-retry loop of generate_next_step must drop the tail
+    "bot answer other\ndefine", "bot answer other\ndefine flow", "bot answer other\ndefine user", "bot answer other\nbot add detail\ndefine",
 ]
 
 # taint expression -> marker that only appears when it was evaluated
@@ -381,11 +383,9 @@ class HApp:
         tm = self.app.runtime.llm_task_manager
         orig = tm.render_task_prompt
         disp = self.app.runtime.action_dispatcher
-        orig_exec = disp.execute_action
-        if not callable(orig) or not callable(orig_exec):
-            raise RuntimeError("hook-missing: render_task_prompt / execute_action")
+        if not callable(orig) or not isinstance(getattr(disp, "_registered_actions", None), dict):
+            raise RuntimeError("hook-missing: render_task_prompt / action_dispatcher._registered_actions")
         self.renders = 0
-        self.failed = []
         self.crashes = []
 
         def wrapped(task, *a, **k):
@@ -393,14 +393,7 @@ class HApp:
             self.renders += 1
             return orig(task, *a, **k)
 
-        async def wrapped_exec(action_name, params):
-            res = await orig_exec(action_name, params)
-            if isinstance(res, tuple) and len(res) == 2 and res[1] == "failed":
-                self.failed.append(action_name)
-            return res
-
         tm.render_task_prompt = wrapped
-        disp.execute_action = wrapped_exec
         # the dispatcher swallows the exception of a failed action: record its type at the action itself
         # (functools.wraps keeps the signature the runtimes inspect to pass events/context/llm/state)
         import functools
@@ -441,7 +434,6 @@ class HApp:
         self.hit_kind = None
         self.ttype = "free"
         self.turn = 0
-        self.failed = []
         self.crashes = []
         self.max_steps = 0
 
@@ -515,7 +507,7 @@ STEP_BUDGET = {"v1": 600_000, "v2": 8_000_000}
 
 
 def play(app, case, cid):
-    """Runs the conversation; returns list of per-turn (reply, exception, failed actions)."""
+    """Runs the conversation; returns list of per-turn (reply, exception, [(crashed LLM action, exception type)])."""
     from . import steps
 
     app.reset(case["pos"], case["text"], cid)
@@ -525,7 +517,6 @@ def play(app, case, cid):
     state = {}
     for t, tt in enumerate(case["ttypes"]):
         app.turn, app.ttype = t, tt
-        app.failed = []
         app.crashes = []
         text = user_text(cid, t, tt) if app.ver == "v2" else "%s-%s-%d tell me %s" % (UTOK, cid, t, tt)
         steps.start(STEP_BUDGET[app.ver])
